@@ -303,6 +303,11 @@ class C05:
         src = txt(tree)
         if isinstance(tree, Leaf) and rng.random() < 0.3 and tree.form in ("$()", "!()"):
             src = "_v = " + src
+        # ordinary Python boolean code earlier in the same compilation unit must not change what the chain does
+        r2 = random.Random(case["rseed"] + "/prelude")
+        if r2.random() < 0.35:
+            src = r2.choice(["_p = 1 or 2\n", "_q = (0 and 1)\n", "if 1 > 0 and 2 > 1:\n    _p = 3\n", "_r = not (1 and 0) or 5\n", "def _f(a, b):\n    return a and b or None\n"]) + src
+            rec.count("programs_with_a_python_boolean_prelude")
         lv = leaves(tree)
         # ---- reference
         log, exp = expected(tree, flags)
